@@ -484,7 +484,12 @@ func (p *Project) writeStage(rel string, s *StageRec) {
 				attrs = append(attrs, "    skip-cache: true")
 			}
 			if len(attrs) == 0 {
-				fmt.Fprintf(&sb, "  %s: {}\n", jsonStr(a.Path))
+				// both documented spellings of "no attributes": `path: {}` and the bare `path:`
+				if (len(a.Path)+len(l))%2 == 0 {
+					fmt.Fprintf(&sb, "  %s: {}\n", jsonStr(a.Path))
+				} else {
+					fmt.Fprintf(&sb, "  %s:\n", jsonStr(a.Path))
+				}
 			} else {
 				fmt.Fprintf(&sb, "  %s:\n%s\n", jsonStr(a.Path), strings.Join(attrs, "\n"))
 			}
